@@ -279,6 +279,7 @@ class Interp(object):
     module-level dict tables (folded by constfold).  Returns UNKNOWN for anything else."""
 
     UNKNOWN = object()
+    RAISES = "\0raises"  # the evaluated expression raises (KeyError / IndexError on a table)
 
     def __init__(self, ctx=None):
         self.ctx = ctx
@@ -293,6 +294,19 @@ class Interp(object):
         if op in ("tuple", "list", "set"):
             xs = [self.val(z, env) for z in t.a]
             return U if any(x is U for x in xs) else tuple(xs)
+        if op == "dict":
+            out = {}
+            for kv in t.a:
+                k, v = self.val(kv.a[0], env), self.val(kv.a[1], env)
+                if k is U or v is U:
+                    return U
+                try:
+                    out[k] = v
+                except TypeError:
+                    return U
+            return out
+        if op == "glob":
+            return self._table(t)
         if op == "bin":
             a, b = self.val(t.a[1], env), self.val(t.a[2], env)
             if a is U or b is U:
@@ -375,9 +389,9 @@ class Interp(object):
 
             n = call_name(t)
             if n == ".get" and len(t.a[1]) in (2, 3):
-                tab = self._table(t.a[1][0])
+                tab = self.val(t.a[1][0], env)
                 k = self.val(t.a[1][1], env)
-                if tab is U or k is U:
+                if tab is U or k is U or not isinstance(tab, dict):
                     return U
                 d = self.val(t.a[1][2], env) if len(t.a[1]) == 3 else None
                 try:
@@ -394,24 +408,21 @@ class Interp(object):
                     return U
             return U
         if op == "sub":
-            tab = self._table(t.a[0])
-            if tab is not U:
+            tab = self.val(t.a[0], env)
+            if tab is not U and isinstance(tab, (dict, tuple)):
                 k = self.val(t.a[1], env)
                 if k is U:
                     return U
                 try:
-                    return tab[k]
+                    return tab[int(k) if isinstance(tab, tuple) and isinstance(k, float) else k]
                 except Exception:
-                    return U
+                    return self.RAISES
             return U
         return U
 
     def _table(self, t):
         if t.op == "dict":
-            try:
-                return dict((self.val(kv.a[0], {}), self.val(kv.a[1], {})) for kv in t.a)
-            except Exception:
-                return self.UNKNOWN
+            return self.val(t, {})
         if t.op == "glob" and self.ctx is not None:
             try:
                 from .constfold import fold
